@@ -65,6 +65,8 @@ func (c04) Phases() []kit.Phase {
 	}
 }
 
+const c04Repeat = 1000000 // an "alt" with this many alternatives is written repeat/0
+
 type c04Scenario struct {
 	ViaExec bool          `json:"as_directive,omitempty"` // the goal runs as a directive of a text given to Exec: first answer only, the error comes back from Exec
 	Via     string        `json:"via,omitempty"`          // directive | init (an initialization goal, another one queued behind it) | include (directive of an included file) | consult-query (directive of a file consulted by a query)
@@ -107,7 +109,7 @@ func (x *c04Gen) catcher() string {
 	case 4:
 		return "error(_, _)"
 	}
-	return []string{"error(type_error(_, _), _)", "error(instantiation_error, _)", "error(existence_error(_, _), _)", "error(resource_error(_), _)", "error(evaluation_error(_), _)", "error(b1, ctx1)", "error(_, ctx1)"}[g.Choose(7)]
+	return []string{"error(type_error(_, _), _)", "error(instantiation_error, _)", "error(existence_error(_, _), _)", "error(resource_error(_), _)", "error(evaluation_error(_), _)", "error(b1, ctx1)", "error(_, ctx1)", "error(type_error(atom, f(b)), _)", "error(type_error(atom, f(a)), _)"}[g.Choose(9)]
 }
 
 func (x *c04Gen) ball() string {
@@ -145,10 +147,18 @@ func (x *c04Gen) leaf() *c04Goal {
 		}
 		return &c04Goal{Op: "obs", I: x.nextI}
 	case 3:
+		if g.Choose(6) == 0 {
+			return &c04Goal{Op: "alt", N: c04Repeat} // repeat/0
+		}
 		return &c04Goal{Op: "alt", N: 2 + g.Choose(2)}
 	case 4:
 		return &c04Goal{Op: "throw", T: x.ball()}
 	case 5:
+		if g.Choose(4) == 0 {
+			// a built-in error whose culprit holds a variable that is bound on the way: the error term is a copy taken when
+			// it is raised
+			return &c04Goal{Op: "berr", Kind: "culprit", T: x.v()}
+		}
 		return &c04Goal{Op: "berr", Kind: []string{"type", "inst", "arg", "exist", "eval", "evalcmp"}[g.Choose(6)]}
 	case 6:
 		return &c04Goal{Op: "out"}
@@ -206,6 +216,14 @@ func (x *c04Gen) goal(depth int) *c04Goal {
 	case 7:
 		if x.inBody {
 			return x.leaf()
+		}
+		if g.Choose(3) == 0 {
+			// a collection abandoned by an error after it has produced answers, inside a collection that goes on: what the
+			// abandoned one had gathered is gone with it
+			x.nextI++
+			inner := &c04Goal{Op: "findall", V: 1 + g.Choose(4), Args: []*c04Goal{{Op: "and", Args: []*c04Goal{{Op: "alt", N: 2 + g.Choose(2)}, {Op: "pt", I: x.nextI}}}}}
+			mid := &c04Goal{Op: "catch", T: x.catcher(), Args: []*c04Goal{inner, x.leaf()}}
+			return &c04Goal{Op: "findall", V: 1 + g.Choose(4), Args: []*c04Goal{{Op: "and", Args: []*c04Goal{{Op: "alt", N: 1 + g.Choose(3)}, mid}}}}
 		}
 		return &c04Goal{Op: "findall", V: 1 + g.Choose(4), Args: []*c04Goal{x.scoped(depth - 1)}}
 	case 8:
@@ -312,6 +330,9 @@ func c04Text(g *c04Goal) string {
 	case "bind":
 		return g.T
 	case "alt":
+		if g.N >= c04Repeat {
+			return "repeat"
+		}
 		return fmt.Sprintf("between(1, %d, _)", g.N)
 	case "and":
 		return "(" + c04Text(g.Args[0]) + ", " + c04Text(g.Args[1]) + ")"
@@ -354,6 +375,8 @@ func c04Text(g *c04Goal) string {
 		return "throw(" + g.T + ")"
 	case "berr":
 		switch g.Kind {
+		case "culprit":
+			return fmt.Sprintf("(%s = a, atom_length(f(%s), _))", g.T, g.T)
 		case "eval":
 			return "_ is 1 / 0"
 		case "evalcmp":
@@ -560,6 +583,10 @@ func (c04) Exec(r *kit.Run) {
 		sols.Close()
 	}
 	r.Steps(visits + len(events))
+	if ctx.Fired() && wantOutcome == "cap" {
+		r.Out.Inconclusive = "cap" // with repeat/0 in the grammar a query may really not terminate: the model says so too
+		return
+	}
 	if ctx.Fired() {
 		r.Fail("runaway", "query-does-not-terminate", "the query did not end within 200000 trampoline steps (the reference model ends with %s after %d events)\n  query: %s\n  program: %s\n  plan: %v\n  first events: %v", wantOutcome, len(m.events), sc.Query, strings.ReplaceAll(sc.Program, "\n", " "), sc.Plan, tail(events, 12))
 		return
